@@ -28,6 +28,7 @@
     consumed tokens and non-terminals. *)
 From Coq Require Import List Arith NArith Bool Lia.
 From Parol Require Import Runtime.TokenBuffer.
+From Parol Require Runtime.LLParser.
 Import ListNotations.
 
 (** ** List helpers *)
@@ -1451,3 +1452,469 @@ Proof.
 Qed.
 
 End LRBisim.
+
+(** The buffered stream and the specification drive the LR parser alike. *)
+Lemma lr_real_vs_spec P skips k its st p stack cm : Rel skips st p -> Full k st ->
+  snd (lr_run P stream (real_impl skips) its (st, stack, cm)) =
+  snd (lr_run P (list token) (spec_impl k) its (p, stack, cm)) /\
+  lc_stack (fst (lr_run P stream (real_impl skips) its (st, stack, cm))) =
+  lc_stack (fst (lr_run P (list token) (spec_impl k) its (p, stack, cm))) /\
+  lc_comments (fst (lr_run P stream (real_impl skips) its (st, stack, cm))) =
+  lc_comments (fst (lr_run P (list token) (spec_impl k) its (p, stack, cm))).
+Proof.
+  intros HR HF.
+  destruct (lr_run_bisim P stream (list token) (real_impl skips) (spec_impl k)
+              (fun s q => Rel skips s q /\ Full k s)) with (its := its)
+              (c1 := (st, stack, cm)) (c2 := (p, stack, cm)) as (E1 & _ & E2 & E3).
+  - intros n s1 s2 (H1 & H2). cbn [real_impl spec_impl i_look fst snd].
+    destruct (lookahead_refines skips k s1 s2 n H1 H2) as (L1 & L2). rewrite L1, L2.
+    split; [reflexivity|split; assumption].
+  - intros s1 s2 (H1 & H2). cbn [real_impl spec_impl i_cons].
+    destruct (consume_refines skips k s1 s2 H1 H2) as (C1 & C2 & C3).
+    split; [exact C1|split; assumption].
+  - intros s1 s2 (H1 & H2). cbn [real_impl spec_impl i_skip fst snd].
+    destruct (take_skip_refines skips k s1 s2 H1 H2) as (T1 & T2 & T3).
+    split; [exact T1|split; assumption].
+  - unfold conf_rel; cbn [lc_stream lc_stack lc_comments fst snd].
+    split; [split; assumption|split; reflexivity].
+  - split; [exact E1|split; assumption].
+Qed.
+
+(** *** Skipped tokens and the LR parser *)
+Section LRViews.
+Variable P : token -> bool.
+Variable A : Type.
+Variable proj : token -> A.
+
+Inductive plobs :=
+| PLook (r : lexerr + A)
+| PShift (r : lexerr + A)
+| PArgs (l : list (A + N)).
+
+Definition parg (a : arg) : A + N := match a with ArgT t => inl (proj t) | ArgN nt => inr nt end.
+
+Definition pobs (o : lr_obs) : plobs :=
+  match o with
+  | LObsLook r => PLook (proj_result A proj r)
+  | LObsShift r => PShift (proj_result A proj r)
+  | LObsArgs l => PArgs (map parg l)
+  end.
+
+(** [call_action]'s predicate agrees with the predicate of the token buffer on these tokens. *)
+Definition agree (p : list token) : Prop := Forall (fun t => P t = is_effectively_skip_token t) p.
+
+Hypothesis HPf : P eoi_filler = false.
+
+Lemma agree_split p : agree p ->
+  Forall (fun t => P t = true) (take_while is_effectively_skip_token p) /\
+  agree (drop_while is_effectively_skip_token p).
+Proof.
+  intros H. unfold agree in *.
+  rewrite <- (take_drop_while _ is_effectively_skip_token p) in H. apply Forall_app in H.
+  destruct H as (H1 & H2). split; [|exact H2].
+  pose proof (take_while_all _ is_effectively_skip_token p) as Hall.
+  rewrite forallb_forall in Hall. rewrite Forall_forall in *. intros t Ht.
+  rewrite (H1 t Ht). apply Hall. exact Ht.
+Qed.
+
+Lemma consume_head_ok q : head_ok q -> agree q ->
+  exists x, fst (spec_consume q) = inr x /\ P x = false /\ agree (snd (spec_consume q)).
+Proof.
+  intros Hh Ha. destruct q as [|t r]; cbn [spec_consume].
+  - exists eoi_filler. repeat split; [exact HPf|constructor].
+  - rewrite (Hh t r eq_refl). cbn [fst snd]. inversion Ha as [|? ? Ht Hr]; subst.
+    exists t. repeat split; [rewrite Ht; apply (Hh t r eq_refl)|exact Hr].
+Qed.
+
+(** The relation kept by the LR loop: same significant pending tokens, same counted stack. *)
+Definition lr_view (c1 c2 : lr_conf (list token)) : Prop :=
+  same_view A proj (lc_stream c1) (lc_stream c2) /\
+  agree (lc_stream c1) /\ agree (lc_stream c2) /\
+  map parg (sview P (lc_stack c1)) = map parg (sview P (lc_stack c2)).
+
+Lemma lr_iter_step_view k it c1 c2 : lr_view c1 c2 ->
+  map pobs (snd (lr_iter_step P _ (spec_impl k) it c1)) = map pobs (snd (lr_iter_step P _ (spec_impl k) it c2)) /\
+  lr_view (fst (lr_iter_step P _ (spec_impl k) it c1)) (fst (lr_iter_step P _ (spec_impl k) it c2)).
+Proof.
+  intros (Hv & Ha1 & Ha2 & Hs).
+  destruct c1 as [[p1 st1] cm1]; destruct c2 as [[p2 st2] cm2].
+  cbn [lc_stream lc_stack lc_comments fst snd] in *.
+  unfold lr_iter_step, lr_handle_additional_tokens.
+  cbn [spec_impl i_skip i_look i_cons fst snd lc_stream lc_stack lc_comments].
+  destruct (agree_split p1 Ha1) as (T1 & D1). destruct (agree_split p2 Ha2) as (T2 & D2).
+  pose proof (view_drop A proj p1 p2 Hv) as Hd.
+  set (q1 := drop_while is_effectively_skip_token p1) in *.
+  set (q2 := drop_while is_effectively_skip_token p2) in *.
+  pose proof (sview_push_skips P _ st1 T1) as V1. pose proof (sview_push_skips P _ st2 T2) as V2.
+  set (s1 := push_terminals (take_while is_effectively_skip_token p1) st1) in *.
+  set (s2 := push_terminals (take_while is_effectively_skip_token p2) st2) in *.
+  assert (Hs' : map parg (sview P s1) = map parg (sview P s2)) by (rewrite V1, V2; exact Hs).
+  destruct it as [|n nt|]; cbn [fst snd map pobs].
+  - destruct (view_consume A proj q1 q2 (drop_while_head_ok p1) (drop_while_head_ok p2) Hd) as (C1 & C2).
+    destruct (consume_head_ok q1 (drop_while_head_ok p1) D1) as (x1 & E1 & Px1 & A1).
+    destruct (consume_head_ok q2 (drop_while_head_ok p2) D2) as (x2 & E2 & Px2 & A2).
+    split.
+    + rewrite (view_look A proj k 0 q1 q2 Hd), C1. reflexivity.
+    + unfold lr_view; cbn [lc_stream lc_stack fst snd]. rewrite E1, E2.
+      rewrite E1, E2 in C1. cbn [proj_result] in C1. inversion C1 as [Hx].
+      rewrite (sview_push_token P x1 s1 Px1), (sview_push_token P x2 s2 Px2). cbn [map parg].
+      rewrite Hx, Hs'. repeat split; assumption.
+  - destruct (call_action_spec P n nt s1) as (F1 & G1). destruct (call_action_spec P n nt s2) as (F2 & G2).
+    split.
+    + rewrite (view_look A proj k 0 q1 q2 Hd), F1, F2, !map_rev, <- !firstn_map, Hs'. reflexivity.
+    + unfold lr_view; cbn [lc_stream lc_stack fst snd]. rewrite G1, G2. cbn [map parg].
+      rewrite <- !skipn_map, Hs'. repeat split; assumption.
+  - split; [reflexivity|]. unfold lr_view; cbn [lc_stream lc_stack fst snd]. repeat split; assumption.
+Qed.
+
+Theorem lr_run_view k its : forall c1 c2, lr_view c1 c2 ->
+  map pobs (snd (lr_run P _ (spec_impl k) its c1)) = map pobs (snd (lr_run P _ (spec_impl k) its c2)).
+Proof.
+  induction its as [|it its IH]; intros c1 c2 H; cbn [lr_run fst snd]; [reflexivity|].
+  destruct (lr_iter_step_view k it c1 c2 H) as (E1 & E2).
+  rewrite !map_app, E1, (IH _ _ E2). reflexivity.
+Qed.
+
+End LRViews.
+
+(** *** [skip_irrelevant_lr], [lr_skip_listed_ok], [lr_skip_listed_refuted] *)
+
+Lemma stream_tokens_no_flags skips len fm ms k0 : no_skip_lists skips ->
+  Forall (fun t => t_state_skip t = false) (stream_tokens skips len fm ms k0).
+Proof.
+  intros H. unfold stream_tokens. apply gapped_Forall; [reflexivity|].
+  apply Forall_forall. intros t Ht. apply in_map_iff in Ht. destruct Ht as (mt & E & _). subst t.
+  cbn. apply no_skip_lists_state_skip. exact H.
+Qed.
+
+(** Generic form: whenever [call_action]'s predicate [P] agrees with
+    [is_effectively_skip_token] on the tokens of both inputs, the observations of the LR parser
+    (lookaheads, shifted tokens, action arguments) depend only on the significant tokens. *)
+Theorem lr_skip_irrelevant_gen (P : token -> bool) (A : Type) (proj : token -> A)
+    skips1 len1 fm1 ms1 skips2 len2 fm2 ms2 k0 its :
+  P eoi_filler = false ->
+  agree P (stream_tokens skips1 len1 fm1 ms1 k0) -> agree P (stream_tokens skips2 len2 fm2 ms2 k0) ->
+  same_view A proj (stream_tokens skips1 len1 fm1 ms1 k0) (stream_tokens skips2 len2 fm2 ms2 k0) ->
+  map (pobs A proj) (snd (lr_run P stream (real_impl skips1) its (stream_new skips1 len1 fm1 ms1 k0, [], []))) =
+  map (pobs A proj) (snd (lr_run P stream (real_impl skips2) its (stream_new skips2 len2 fm2 ms2 k0, [], []))).
+Proof.
+  intros HPf Ha1 Ha2 Hv.
+  destruct (stream_new_rel skips1 len1 fm1 ms1 k0) as (R1 & F1).
+  destruct (stream_new_rel skips2 len2 fm2 ms2 k0) as (R2 & F2).
+  destruct (lr_real_vs_spec P skips1 _ its _ _ [] [] R1 F1) as (E1 & _).
+  destruct (lr_real_vs_spec P skips2 _ its _ _ [] [] R2 F2) as (E2 & _).
+  rewrite E1, E2. apply (lr_run_view P A proj HPf).
+  unfold lr_view; cbn [lc_stream lc_stack fst snd]. repeat split; assumption.
+Qed.
+
+(** [skip_irrelevant_lr]: the Rust [call_action] ([is_skip_token]) with built-in skip tokens only
+    (no entries in the skip lists). *)
+Theorem skip_irrelevant_lr (A : Type) (proj : token -> A)
+    skips1 len1 fm1 ms1 skips2 len2 fm2 ms2 k0 its :
+  no_skip_lists skips1 -> no_skip_lists skips2 ->
+  same_view A proj (stream_tokens skips1 len1 fm1 ms1 k0) (stream_tokens skips2 len2 fm2 ms2 k0) ->
+  map (pobs A proj) (snd (lr_run is_skip_token stream (real_impl skips1) its (stream_new skips1 len1 fm1 ms1 k0, [], []))) =
+  map (pobs A proj) (snd (lr_run is_skip_token stream (real_impl skips2) its (stream_new skips2 len2 fm2 ms2 k0, [], []))).
+Proof.
+  intros H1 H2 Hv. apply lr_skip_irrelevant_gen; try assumption; try reflexivity.
+  - eapply Forall_impl; [|apply (stream_tokens_no_flags skips1 len1 fm1 ms1 k0 H1)].
+    intros t Ht. unfold is_effectively_skip_token. rewrite Ht, orb_false_r. reflexivity.
+  - eapply Forall_impl; [|apply (stream_tokens_no_flags skips2 len2 fm2 ms2 k0 H2)].
+    intros t Ht. unfold is_effectively_skip_token. rewrite Ht, orb_false_r. reflexivity.
+Qed.
+
+(** [lr_skip_listed_ok]: with the repaired predicate ([is_effectively_skip_token] in both places
+    of [call_action]) the statement holds for arbitrary skip lists. *)
+Theorem lr_skip_listed_ok (A : Type) (proj : token -> A)
+    skips1 len1 fm1 ms1 skips2 len2 fm2 ms2 k0 its :
+  same_view A proj (stream_tokens skips1 len1 fm1 ms1 k0) (stream_tokens skips2 len2 fm2 ms2 k0) ->
+  map (pobs A proj) (snd (lr_run is_effectively_skip_token stream (real_impl skips1) its
+                            (stream_new skips1 len1 fm1 ms1 k0, [], []))) =
+  map (pobs A proj) (snd (lr_run is_effectively_skip_token stream (real_impl skips2) its
+                            (stream_new skips2 len2 fm2 ms2 k0, [], []))).
+Proof.
+  intros Hv. apply lr_skip_irrelevant_gen; try assumption; try reflexivity;
+    apply Forall_forall; intros t _; reflexivity.
+Qed.
+
+(** D9 witness.  Terminals a = 5, b = 6, c = 7; production 0 is [S: a b]; scanner mode 0 has
+    [%skip c]; text "acb" (and "ab" for comparison).  The LR loop does: shift, shift, reduce by
+    production 0 (length 2, left-hand side 0). *)
+Definition d9_skips : list (list N) := [[7%N]].
+Definition d9_acb : list smatch := [mkMatch 5 0 1 0; mkMatch 7 1 2 0; mkMatch 6 2 3 0].
+Definition d9_ab : list smatch := [mkMatch 5 0 1 0; mkMatch 6 1 2 0].
+Definition d9_its : list lr_iter := [ItShift; ItShift; ItReduce 2 0].
+
+Definition action_args (obs : list lr_obs) : list (list N) :=
+  flat_map (fun o => match o with
+                     | LObsArgs l => [flat_map (fun a => match a with ArgT t => [t_type t] | ArgN _ => [] end) l]
+                     | _ => [] end) obs.
+
+(** The Rust predicate: the action for [S: a b] gets the tokens (c, b). *)
+Example d9_actual_args :
+  action_args (snd (lr_run is_skip_token stream (real_impl d9_skips) d9_its
+                      (stream_new d9_skips 3 0 d9_acb 1, [], []))) = [[7%N; 6%N]].
+Proof. vm_compute. reflexivity. Qed.
+
+(** The repaired predicate: (a, b). *)
+Example d9_repaired_args :
+  action_args (snd (lr_run is_effectively_skip_token stream (real_impl d9_skips) d9_its
+                      (stream_new d9_skips 3 0 d9_acb 1, [], []))) = [[5%N; 6%N]].
+Proof. vm_compute. reflexivity. Qed.
+
+(** Both inputs present the same significant tokens to the parser, the LR automaton makes the
+    same moves - but the Rust [call_action] hands different arguments to the action. *)
+Theorem lr_skip_listed_refuted :
+  exists skips len1 ms1 len2 ms2 its,
+    same_view N t_type (stream_tokens skips len1 0 ms1 1) (stream_tokens skips len2 0 ms2 1) /\
+    parser_input skips ms1 = parser_input skips ms2 /\
+    map (pobs N t_type) (snd (lr_run is_skip_token stream (real_impl skips) its
+                                (stream_new skips len1 0 ms1 1, [], []))) <>
+    map (pobs N t_type) (snd (lr_run is_skip_token stream (real_impl skips) its
+                                (stream_new skips len2 0 ms2 1, [], []))).
+Proof.
+  exists d9_skips, 3%N, d9_acb, 2%N, d9_ab, d9_its.
+  split; [vm_compute; reflexivity|]. split; [vm_compute; reflexivity|].
+  vm_compute. intros H. discriminate H.
+Qed.
+
+(** *** The LR parse tree stack keeps every token ([pop_n] keeps interleaved skip tokens) *)
+Lemma comments_of_not_skip t : is_effectively_skip_token t = false -> comments_of [t] = [].
+Proof.
+  intros H. unfold comments_of; cbn [filter]. destruct (is_comment_token t) eqn:E; [|reflexivity].
+  rewrite (comment_is_skip t E) in H. discriminate.
+Qed.
+
+Lemma lr_iter_step_leaves P k it p stack cm :
+  exists d m,
+    stack_leaves (lc_stack (fst (lr_iter_step P _ (spec_impl k) it (p, stack, cm)))) = stack_leaves stack ++ d /\
+    d ++ lc_stream (fst (lr_iter_step P _ (spec_impl k) it (p, stack, cm))) = p ++ repeat eoi_filler m /\
+    lc_comments (fst (lr_iter_step P _ (spec_impl k) it (p, stack, cm))) = cm ++ comments_of d.
+Proof.
+  unfold lr_iter_step, lr_handle_additional_tokens.
+  cbn [spec_impl i_skip i_look i_cons fst snd lc_stream lc_stack lc_comments].
+  pose proof (take_drop_while _ is_effectively_skip_token p) as Htd.
+  pose proof (drop_while_head_ok p) as Hh.
+  set (ts := take_while is_effectively_skip_token p) in *.
+  set (q := drop_while is_effectively_skip_token p) in *.
+  destruct it as [|n nt|]; cbn [fst snd lc_stream lc_stack lc_comments].
+  - destruct q as [|t r]; cbn [spec_consume fst snd].
+    + exists (ts ++ [eoi_filler]), 1%nat.
+      rewrite stack_leaves_cons_terminal, stack_leaves_push, <- app_assoc.
+      rewrite app_nil_r in Htd. rewrite <- Htd. rewrite app_nil_r, comments_of_app. cbn [repeat].
+      repeat split. unfold comments_of at 3. cbn. rewrite app_nil_r. reflexivity.
+    + rewrite (Hh t r eq_refl). cbn [fst snd]. exists (ts ++ [t]), O.
+      rewrite stack_leaves_cons_terminal, stack_leaves_push, <- !app_assoc. cbn [app repeat].
+      rewrite Htd, app_nil_r, comments_of_app, (comments_of_not_skip t (Hh t r eq_refl)), app_nil_r.
+      repeat split.
+  - exists ts, O. rewrite call_action_leaves, stack_leaves_push. cbn [repeat].
+    rewrite Htd, app_nil_r. repeat split.
+  - exists ts, O. rewrite stack_leaves_push. cbn [repeat]. rewrite Htd, app_nil_r. repeat split.
+Qed.
+
+Lemma lr_run_leaves P k its : forall p stack cm,
+  exists d m,
+    stack_leaves (lc_stack (fst (lr_run P _ (spec_impl k) its (p, stack, cm)))) = stack_leaves stack ++ d /\
+    d ++ lc_stream (fst (lr_run P _ (spec_impl k) its (p, stack, cm))) = p ++ repeat eoi_filler m /\
+    lc_comments (fst (lr_run P _ (spec_impl k) its (p, stack, cm))) = cm ++ comments_of d.
+Proof.
+  induction its as [|it its IH]; intros p stack cm; cbn [lr_run fst snd].
+  - exists [], O. cbn [lc_stack lc_stream lc_comments fst snd repeat app comments_of filter].
+    rewrite !app_nil_r. repeat split.
+  - destruct (lr_iter_step_leaves P k it p stack cm) as (d1 & m1 & A1 & B1 & C1).
+    destruct (fst (lr_iter_step P (list token) (spec_impl k) it (p, stack, cm))) as [[p1 s1] c1].
+    cbn [lc_stack lc_stream lc_comments fst snd] in *.
+    destruct (IH p1 s1 c1) as (d2 & m2 & A2 & B2 & C2).
+    exists (d1 ++ d2), (m1 + m2)%nat.
+    split; [rewrite A2, A1, app_assoc; reflexivity|]. split.
+    + rewrite <- app_assoc, B2, app_assoc, B1, <- app_assoc, <- repeat_app. reflexivity.
+    + rewrite C2, C1, comments_of_app, app_assoc. reflexivity.
+Qed.
+
+(** [lr_leaves_all_tokens]: for every predicate [P] (so also with D9), every [k0] and every
+    sequence of LR moves: the leaves of the parse tree stack, read left to right, followed by the
+    tokens still pending, are exactly the delivered token sequence [stream_tokens] (followed by
+    fillers if the parser shifted end-of-input tokens), and the tokens handed to [on_comment] are
+    the comment tokens among those leaves, in order. *)
+Theorem lr_leaves_all_tokens P skips len fm ms k0 its :
+  exists pending m,
+    stack_leaves (lc_stack (fst (lr_run P stream (real_impl skips) its (stream_new skips len fm ms k0, [], []))))
+      ++ pending = stream_tokens skips len fm ms k0 ++ repeat eoi_filler m /\
+    lc_comments (fst (lr_run P stream (real_impl skips) its (stream_new skips len fm ms k0, [], [])))
+      = comments_of (stack_leaves (lc_stack (fst (lr_run P stream (real_impl skips) its
+                                                   (stream_new skips len fm ms k0, [], []))))).
+Proof.
+  destruct (stream_new_rel skips len fm ms k0) as (R1 & F1).
+  destruct (lr_real_vs_spec P skips _ its _ _ [] [] R1 F1) as (_ & E2 & E3).
+  rewrite E2, E3.
+  destruct (lr_run_leaves P (Nat.max 1 k0) its (stream_tokens skips len fm ms k0) [] []) as (d & m & A1 & B1 & C1).
+  cbn [stack_leaves rev flat_map app] in A1. cbn [app] in C1.
+  eexists _, m. rewrite A1, C1. split; [exact B1|reflexivity].
+Qed.
+
+(** ** Lookahead size 0 (grammars without alternatives get [MAX_K = 0])
+    [TokenStream::new] hands the unchanged [k] to the [TokenIter], which then yields NO
+    end-of-input token; the stream (which uses [max(1,k)]) fills the buffer with
+    [Token::eoi(MAX)] at the default location.  Nothing is added at [input.len()], so unmatched
+    text at the very end of the input never becomes a gap token: the delivered tokens are not
+    lossless.  (With [k0 = 1] the same schedule delivers the gap token 1..2.) *)
+Theorem buffer_contiguous_k0_refuted :
+  exists skips len fm ms ops,
+    matches_ok len ms = true /\
+    last (run skips (stream_new skips len fm ms 0) ops) (EvSkip []) = EvLook (inr eoi_filler) /\
+    ~ chain 0 (delivered (run skips (stream_new skips len fm ms 0) ops)) len.
+Proof.
+  exists [], 2%N, 0%N, [mkMatch 5 0 1 0], [OpTakeSkip; OpConsume; OpTakeSkip; OpLookahead 0].
+  split; [reflexivity|]. split; [vm_compute; reflexivity|].
+  vm_compute. intros (_ & _ & H). discriminate H.
+Qed.
+
+Example k0_one_delivers_gap :
+  delivered (run [] (stream_new [] 2 0 [mkMatch 5 0 1 0] 1) [OpTakeSkip; OpConsume; OpTakeSkip; OpLookahead 0])
+  = [mkTok 5 0 1 0 false; mkTok INVALID_TOKEN 1 2 1 false].
+Proof. vm_compute. reflexivity. Qed.
+
+(** ** Link to the parser models
+    Runtime/LLParser.v ([ll_run]) and Runtime/LRParser.v ([lr_run]) take the list of significant
+    token types; [LLParser.significant] is their domain check (not 0, not 1..4, not
+    [INVALID_TOKEN]).  [parser_input] is inside that domain. *)
+Theorem parser_input_domain skips ms : types_ok ms = true ->
+  forallb LLParser.significant (parser_input skips ms) = true.
+Proof.
+  unfold parser_input. induction ms as [|m ms IH]; intros H; cbn [filter map forallb]; [reflexivity|].
+  cbn [types_ok forallb] in H. apply andb_prop in H. destruct H as (Hm & H).
+  destruct (match_significant skips m) eqn:E; [|apply IH; exact H].
+  cbn [map forallb]. rewrite (IH H), andb_true_r.
+  unfold match_significant in E. apply negb_true_iff, orb_false_elim in E. destruct E as (E & _).
+  apply negb_true_iff in Hm.
+  unfold type_is_skip, EOI, FIRST_USER_TOKEN, INVALID_TOKEN in *.
+  unfold LLParser.significant, LLParser.INVALID_TOKEN.
+  destruct (N.eqb_spec (m_type m) 0); [discriminate|].
+  destruct (N.eqb_spec (m_type m) 65534); [rewrite orb_true_r in E; discriminate|].
+  rewrite orb_false_r in E.
+  destruct (N.ltb_spec 0 (m_type m)); [|lia].
+  destruct (N.ltb_spec (m_type m) 5); [discriminate|].
+  destruct (N.leb_spec 1 (m_type m)); [|lia].
+  destruct (N.leb_spec (m_type m) 4); [lia|]. reflexivity.
+Qed.
+
+(** ** [all_input_consumed] *)
+Lemma all_input_consumed_spec skips k st p : Rel skips st p -> Full k st ->
+  all_input_consumed st = N.eqb (t_type (pick (filter significant p) 0)) EOI.
+Proof.
+  intros HR HF. destruct (lookahead_refines skips k st p 0 HR HF) as (H1 & _).
+  pose proof HF as (Hk & Hl & Hk1).
+  unfold lookahead in H1. rewrite Hk in H1. destruct (Nat.leb_spec k 0) as [Hle|_]; [lia|].
+  rewrite (ensure_full skips k st HF), Hl in H1. destruct (Nat.leb_spec k 0) as [Hle|_]; [lia|].
+  unfold spec_lookahead in H1. destruct (Nat.leb_spec k 0) as [Hle|_]; [lia|].
+  unfold all_input_consumed.
+  assert (He : buf_is_buffer_empty (s_buf st) = false).
+  { unfold buf_is_buffer_empty. destruct (b_toks (s_buf st)) eqn:E; [|reflexivity].
+    unfold buf_len in Hl. rewrite E in Hl. cbn in Hl. lia. }
+  rewrite He. destruct (non_skip_token_at (s_buf st) 0); cbn [fst] in H1; [|discriminate].
+  inversion H1. reflexivity.
+Qed.
+
+(** ** Examples *)
+
+(** "ab  c??" (see [ex_matches] in TokenBuffer.v), skip list [7] in mode 0; schedule of an LL
+    parse of [a b]: predict with LA(0), match a, match b, finish, look. *)
+Definition ex_sched : list op :=
+  ll_sched [LLLookahead 0; LLMatch; LLMatch; LLFinish] ++ [OpTakeSkip; OpLookahead 0].
+
+Example ex_delivered_k1 :
+  delivered (run [[7%N]] (stream_new [[7%N]] 7 0 ex_matches 1) ex_sched) = all_tokens [[7%N]] 7 ex_matches.
+Proof. vm_compute. reflexivity. Qed.
+
+Example ex_delivered_k3 :
+  delivered (run [[7%N]] (stream_new [[7%N]] 7 0 ex_matches 3) ex_sched) = all_tokens [[7%N]] 7 ex_matches.
+Proof. vm_compute. reflexivity. Qed.
+
+(** Hypotheses of [stream_k_independent] / [buffer_contiguous] / [delivered_complete] on this
+    instance. *)
+Example ex_hyps :
+  matches_ok 7 ex_matches = true /\ types_ok ex_matches = true /\
+  is_state_skip [[7%N]] EOI 0 = false /\
+  (forall n, In (OpLookahead n) ex_sched -> (n < 1)%nat /\ (n < 3)%nat) /\
+  exists t, last (run [[7%N]] (stream_new [[7%N]] 7 0 ex_matches 1) ex_sched) (EvSkip []) = EvLook (inr t)
+            /\ t_type t = EOI.
+Proof.
+  repeat split; try reflexivity.
+  - cbn in H. repeat (destruct H as [H|H]; [inversion H; subst; lia|]). contradiction.
+  - cbn in H. repeat (destruct H as [H|H]; [inversion H; subst; lia|]). contradiction.
+  - eexists. split; [vm_compute; reflexivity|reflexivity].
+Qed.
+
+(** The events for k = 1 and k = 3 are literally equal here (no end-of-input token beyond the
+    first is looked at). *)
+Example ex_k_independent :
+  run [[7%N]] (stream_new [[7%N]] 7 0 ex_matches 1) ex_sched =
+  run [[7%N]] (stream_new [[7%N]] 7 0 ex_matches 3) ex_sched.
+Proof. vm_compute. reflexivity. Qed.
+
+(** Comments: "a/*x*/ b//y" + newline: a 0..1, block comment 1..6, whitespace 6..7, b 7..8, line
+    comment 8..12 (incl. the line end). *)
+Definition ex_comment_matches : list smatch :=
+  [mkMatch 5 0 1 0; mkMatch 4 1 6 0; mkMatch 2 6 7 0; mkMatch 6 7 8 0; mkMatch 3 8 12 0].
+
+Example ex_comment_trace :
+  comment_trace (run [] (stream_new [] 12 0 ex_comment_matches 2)
+                   (ll_sched [LLLookahead 0; LLLookahead 1; LLMatch; LLMatch; LLFinish]))
+  = [mkTok 4 1 6 1 false; mkTok 3 8 12 3 false].
+Proof. vm_compute. reflexivity. Qed.
+
+Example ex_comments_of :
+  comments_of (all_tokens [] 12 ex_comment_matches) = [mkTok 4 1 6 1 false; mkTok 3 8 12 3 false].
+Proof. vm_compute. reflexivity. Qed.
+
+(** Skip irrelevance: "ab" and "a/*x*/ b//y\n" have the same parser input. *)
+Example ex_same_input :
+  parser_input [] ex_comment_matches = parser_input [] d9_ab /\
+  no_skip_lists [] /\
+  same_view N t_type (stream_tokens [] 12 0 ex_comment_matches 1) (stream_tokens [] 2 0 d9_ab 1).
+Proof. split; [reflexivity|]. split; [constructor|vm_compute; reflexivity]. Qed.
+
+Example ex_ll_observations :
+  observations N t_type (run [] (stream_new [] 12 0 ex_comment_matches 1) (ll_sched [LLLookahead 0; LLMatch; LLMatch; LLFinish]))
+  = observations N t_type (run [] (stream_new [] 2 0 d9_ab 1) (ll_sched [LLLookahead 0; LLMatch; LLMatch; LLFinish])).
+Proof. vm_compute. reflexivity. Qed.
+
+Example ex_lr_observations :
+  map (pobs N t_type) (snd (lr_run is_skip_token stream (real_impl []) (d9_its ++ [ItFinish])
+                              (stream_new [] 12 0 ex_comment_matches 1, [], [])))
+  = map (pobs N t_type) (snd (lr_run is_skip_token stream (real_impl []) (d9_its ++ [ItFinish])
+                              (stream_new [] 2 0 d9_ab 1, [], []))).
+Proof. vm_compute. reflexivity. Qed.
+
+(** The LR parse tree stack after shift, shift, reduce, finish: one node whose leaves are all
+    tokens before the trailing comment, and the trailing comment itself. *)
+Example ex_lr_leaves :
+  stack_leaves (lc_stack (fst (lr_run is_skip_token stream (real_impl []) (d9_its ++ [ItFinish])
+                                 (stream_new [] 12 0 ex_comment_matches 1, [], []))))
+  = all_tokens [] 12 ex_comment_matches.
+Proof. vm_compute. reflexivity. Qed.
+
+(** Hypothesis of [lr_skip_listed_ok] on the D9 instance. *)
+Example ex_d9_same_view :
+  same_view N t_type (stream_tokens d9_skips 3 0 d9_acb 1) (stream_tokens d9_skips 2 0 d9_ab 1).
+Proof. vm_compute. reflexivity. Qed.
+
+Print Assumptions stream_refines_spec.
+Print Assumptions buffer_contiguous.
+Print Assumptions stream_k_independent.
+Print Assumptions delivered_prefix.
+Print Assumptions delivered_complete.
+Print Assumptions comments_once_in_order.
+Print Assumptions comments_all_delivered.
+Print Assumptions parser_input_spec.
+Print Assumptions parser_input_builtin.
+Print Assumptions skip_irrelevant_ll.
+Print Assumptions skip_irrelevant_ll_types.
+Print Assumptions call_action_spec.
+Print Assumptions skip_irrelevant_lr.
+Print Assumptions lr_skip_listed_ok.
+Print Assumptions lr_skip_listed_refuted.
+Print Assumptions lr_leaves_all_tokens.
+Print Assumptions buffer_contiguous_k0_refuted.
+Print Assumptions all_input_consumed_spec.
+Print Assumptions parser_input_domain.
